@@ -1216,9 +1216,124 @@ def rule_rd_replay(cx, rep, port):
 
 
 # ------------------------------------------------------------------------------------------------ javascript chunk pipeline
+def _jschunk_model(cx, rep, p, tier):
+    """the JS stream reader decided on an abstract stream: texts over {CR, LF, x} (x = any other character) of bounded length, cut into
+    chunks in every possible way, are fed to process_data_stream_chunk / process_data_stream_end (and whole to process_data_bulk); the
+    lines handed to process_line must be the lines of the text (breaks CRLF | CR | LF, a final line without a break included, no
+    empty line after a final break) whatever the cut.  True when the exploration could be carried out."""
+    import itertools
+    import re as _re
+    from .. import absexec as AX
+    it = p.cls('rbql_csv', 'CSVRecordIterator')
+    ms = {m.name: m for m in it.body if isinstance(m, ast.FunctionDef)}
+    if not {'process_data_stream_chunk', 'process_data_stream_end', 'process_data_bulk'} <= set(ms):
+        return False
+    max_len = 4 if tier == 'thorough' else 3
+
+    def split(text):
+        return _re.split('\r\n|\r|\n', text)
+
+    def run(chunks, bulk):
+        selfv = AX.Abs('Self')
+        decoder, agg = AX.Abs('Decoder'), AX.Abs('Agg')
+        init = {'partially_decoded_line': '', 'partially_decoded_line_ends_with_cr': False, 'decoder': decoder, 'encoding': 'utf-8', 'line_aggregator': agg, 'input_exhausted': False}
+        lines, errors = [], []
+
+        def on_attr(ex, node, obj, attr):
+            if obj is selfv and attr in init:
+                return init[attr]
+            return AX.NOT_HANDLED
+
+        def on_call(ex, node, fname, recv, args):
+            short = node.func.attr if isinstance(node.func, ast.Attribute) else fname
+            if recv is decoder and short == 'decode':
+                return args[0].props['text'] if args else ''
+            if isinstance(recv, AX.Abs) and recv.kind == 'Chunk' and short == 'toString':
+                return recv.props['text']
+            if short == 'split_lines' and len(args) == 1 and isinstance(args[0], str):
+                return split(args[0])
+            if recv is selfv and short == 'process_line' and len(args) == 1:
+                lines.append(args[0])
+                return None
+            if recv is selfv and short in ('try_resolve_next_record', 'process_record_line'):
+                return None
+            if recv is selfv and short == 'store_or_propagate_exception':
+                errors.append(args[0] if args else None)
+                return None
+            if recv is agg and short == 'is_inside_multiline_record':
+                return False
+            if fname == 'Buffer.from' and args:
+                return AX.Abs('Chunk', text=args[0]) if isinstance(args[0], str) else args[0]
+            if fname == 'Buffer.compare':
+                return 0
+            if short.endswith('Error'):
+                return AX.Abs(short)
+            return AX.NOT_HANDLED
+        ex = AX.Explorer(p, 'rbql_csv', on_call=on_call, on_attr=on_attr, max_choices=1)
+        ex.cls = 'CSVRecordIterator'
+        ex._script, ex._pos, ex.steps, ex.depth = [], 0, 0, 0
+        ex.run = AX.Run()
+        try:
+            if bulk:
+                ex.call_fd(ms['process_data_bulk'], [selfv, AX.Abs('Chunk', text=''.join(chunks))])
+            else:
+                for c in chunks:
+                    ex.call_fd(ms['process_data_stream_chunk'], [selfv, AX.Abs('Chunk', text=c)])
+                ex.call_fd(ms['process_data_stream_end'], [selfv])
+        except AX.Raised as r:
+            return lines, 'raises {}'.format(r.value.kind if isinstance(r.value, AX.Abs) else r.value)
+        return lines, ('reports an error' if errors else None)
+
+    def show(t):
+        return ''.join({'\r': '<CR>', '\n': '<LF>'}.get(c, c) for c in t)
+    bad_stream = bad_bulk = None
+    n = 0
+    try:
+        for ln in range(0, max_len + 1):
+            for chars in itertools.product('x\r\n', repeat=ln):
+                text = ''.join(chars)
+                pieces = split(text)
+                want = pieces[:-1] + ([pieces[-1]] if pieces[-1] else [])
+                if bad_bulk is None:
+                    got, err = run([text], True)
+                    n += 1
+                    if err or got != want:
+                        bad_bulk = 'bulk reading of `{}` {} instead of giving the lines [{}]'.format(show(text), err or 'gives [{}]'.format(', '.join(repr(show(x)) for x in got)), ', '.join(repr(show(x)) for x in want))
+                for cuts in itertools.product((0, 1), repeat=max(ln - 1, 0)):
+                    chunks, cur = [], ''
+                    for i, ch in enumerate(text):
+                        cur += ch
+                        if i < ln - 1 and cuts[i]:
+                            chunks.append(cur)
+                            cur = ''
+                    if cur:
+                        chunks.append(cur)
+                    if bad_stream is not None:
+                        continue
+                    got, err = run(chunks, False)
+                    n += 1
+                    if err or got != want:
+                        bad_stream = 'the stream `{}` cut into chunks {} {} instead of giving the lines [{}]'.format(show(text), ' | '.join(show(c) for c in chunks) or '(no chunk)', err or 'gives [{}]'.format(', '.join(repr(show(x)) for x in got)), ', '.join(repr(show(x)) for x in want))
+    except (Undecided, AX.Cut, AX._NeedChoice, KeyError, IndexError, TypeError) as e_:
+        import os
+        if os.environ.get('RBQL_VERIF_DEBUG'):
+            print('RD-JSCHUNK model gave up:', type(e_).__name__, e_)
+        return False
+    fd = ms['process_data_stream_chunk']
+    good = 'every text over {{CR, LF, other}} of up to {} characters gives the same lines however it is cut into chunks ({} abstract runs)'.format(max_len, n)
+    for k in ('carry-over prepend', 'carry-over save', 'carry-over stores', 'complete lines', 'CRLF across chunks', 'leading LF test', 'trailing CR flag'):
+        rep.decide(bad_stream is None, k, fd, good, bad_stream or '')
+    rep.decide(bad_bulk is None, 'bulk lines', ms['process_data_bulk'], 'bulk reading gives the lines of the text', bad_bulk or '')
+    rep.decide(bad_bulk is None, 'bulk trailing line', ms['process_data_bulk'], 'only the one empty string after the final line break is dropped', bad_bulk or '')
+    return True
+
+
 def rule_rd_jschunk(cx, rep, port='js'):
     p = cx.js
     fd = p.func('rbql_csv', 'CSVRecordIterator.process_data_stream_chunk')
+    if _jschunk_model(cx, rep, p, getattr(cx, 'tier', 'quick')):
+        _jschunk_rest(cx, rep, p, lines_decided=True)
+        return
     body = list(walk_no_nested(fd))
     reference = '''
 line_starts_with_lf = len(decoded_string) and decoded_string[0] == '\\n'
@@ -1277,7 +1392,7 @@ for i in range(first_line_index, len(lines)):
     _jschunk_rest(cx, rep, p)
 
 
-def _jschunk_rest(cx, rep, p):
+def _jschunk_bulk_shape(cx, rep, p):
     # bulk path: trailing empty line dropped, all lines processed
     bulk = p.func('rbql_csv', 'CSVRecordIterator.process_data_bulk')
     bl = [n for n in walk_no_nested(bulk) if isinstance(n, ast.For)]
@@ -1321,6 +1436,11 @@ def _jschunk_rest(cx, rep, p):
             rep.holds('bulk trailing line', c, 'only the one empty string after the final line break is dropped')
         else:
             rep.undecided('bulk trailing line', c, 'unconditional pop of the last line')
+
+
+def _jschunk_rest(cx, rep, p, lines_decided=False):
+    if not lines_decided:
+        _jschunk_bulk_shape(cx, rep, p)
     # process_line -> process_line_polymorphic dispatch
     init = p.func('rbql_csv', 'CSVRecordIterator.__init__')
     disp = [n for n in walk_no_nested(init) if isinstance(n, ast.Assign) and dotted(n.targets[0]) == 'self.process_line_polymorphic']
